@@ -55,6 +55,17 @@ VMRefines ==
       LET g == Env(doc)  rs == Runs IN
       \A i \in 1 .. Len(doc) : rs[i].done /\ SeqToSet(rs[i].nodes) = EvalSet(path, g, i)
 
+\* C12 at design level: a flat path (child / attribute / self steps only, or one descendant step, or //test)
+\* is delivered in document order, no node twice (ids ARE document order)
+FlatPath(pa) ==
+    \/ \A i \in 1 .. Len(pa.steps) : pa.steps[i].ax \in {"child", "attribute", "self"}
+    \/ Len(pa.steps) = 1 /\ pa.steps[1].ax \in {"descendant", "descendant-or-self"}
+    \/ Len(pa.steps) = 2 /\ IsDosNode(pa.steps[1]) /\ pa.steps[2].ax = "child"
+VMOrdered ==
+    (IsCase /\ FlatPath(path)) =>
+      LET rs == Runs IN
+      \A i \in 1 .. Len(doc) : \A k \in 1 .. Len(rs[i].nodes) - 1 : rs[i].nodes[k] < rs[i].nodes[k + 1]
+
 \* movements flattened to integers (code, from, to, code, from, to, ...) to keep the lines short:
 \* TLC's CSVWrite is atomic only for lines below the I/O buffer size
 OpCode(o) == CASE o = "child" -> 1 [] o = "next" -> 2 [] o = "prev" -> 3 [] o = "parent" -> 4 [] o = "root" -> 5
